@@ -154,3 +154,88 @@ func c10Body(c *explore.C, tier universe.Tier) {
 	_ = math.NaN
 	_ = reflect.TypeOf
 }
+
+// ---- phase 2: structs whose fields are all optional with non-zero defaults ----
+
+func init() {
+	ck := harness.Lookup("C10")
+	old := ck.Phases
+	ck.Phases = func(tier universe.Tier) []*harness.Phase {
+		return append(old(tier), &harness.Phase{
+			Name: "all-optional",
+			Rule: "a static struct with optional fields only (non-zero declared defaults) in 6 nesting positions x every subset of fields away from its default x 1-2 container elements: a value at its defaults is a bare STOP on the wire and must decode to the declared defaults",
+			Body: func(c *explore.C) { c10AllOpt(c) },
+		})
+	}
+}
+
+func c10AllOpt(c *explore.C) {
+	pos := c.Choose(6, explore.Data, "position")
+	maskA := c.Choose(16, explore.Data, "fields-away-from-default")
+	maskB := c.Choose(3, explore.Data, "second-element") // 0: none, 1: all default, 2: all different
+	harness.Cur.Crumb(c.Choices())
+	hooks.Reset()
+	d, o := universe.DfltOptSpecs()
+	mkv := func(mask int) *ref.Val {
+		v := ref.InitStruct(d)
+		if mask&1 != 0 {
+			v.F[0] = ref.Int(ref.KI32, 0) // the Go zero value differs from the default 7
+		}
+		if mask&2 != 0 {
+			v.F[1] = ref.Str("")
+		}
+		if mask&4 != 0 {
+			v.F[2] = ref.Double(0)
+		}
+		if mask&8 != 0 {
+			v.F[3] = ref.List(ref.KList, ref.Int(ref.KI32, 1))
+		}
+		return v
+	}
+	a := mkv(maskA)
+	var elems []*ref.Val
+	elems = append(elems, a)
+	if maskB == 1 {
+		elems = append(elems, mkv(0))
+	} else if maskB == 2 {
+		elems = append(elems, mkv(15))
+	}
+	ov := ref.ZeroStruct(o)
+	ov.F[1] = mkv(0) // the by-value field is always present
+	switch pos {
+	case 0:
+		ov.F[0] = a
+	case 1:
+		ov.F[1] = a
+	case 2:
+		ov.F[2] = ref.List(ref.KList, elems...)
+	case 3:
+		ov.F[3] = ref.List(ref.KSet, elems...)
+	case 4, 5:
+		m := &ref.Val{K: ref.KMap}
+		for i, e := range elems {
+			k := ref.Int(ref.KI32, int64(i+1))
+			if pos == 5 {
+				k = ref.Str(fmt.Sprintf("k%d", i))
+			}
+			m.M = append(m.M, [2]*ref.Val{k, e})
+		}
+		ov.F[pos] = m
+	}
+	how := fmt.Sprintf("position %d, fields away from default %04b, second element %d", pos, maskA, maskB)
+	want := ref.Encode(o, ov)
+	buf := make([]byte, len(want)+32)
+	r := Enc(buf, universe.New(o, ov).Interface())
+	gc, err := ref.Canonical(buf[:r.N])
+	wc, _ := ref.Canonical(want)
+	if r.Panic != nil || r.Err != nil || err != nil || !bytes.Equal(gc, wc) {
+		c.Fail(fmt.Sprintf("encoding differs from the reference omission rule: %v [%s]", r, how), mkCase("C10", "omission-mismatch", o, ov, buf[:r.N], map[string]string{"reference": hx(want)}))
+		return
+	}
+	dv := decodeAndCompare(o, want, decodeOpts{Guard: true})
+	if dv.Class != "" {
+		c.Fail(dv.Msg+" [nested structs must be given their declared defaults even when the message carries none of their fields; "+how+"]", mkCase("C10", "decode-"+dv.Class, o, ov, want, dv.detail()))
+		return
+	}
+	harness.Cur.Outcome(harness.Hash64(want, []byte{byte(pos)}), fmt.Sprintf("pos%d", pos))
+}
